@@ -176,34 +176,59 @@ func (p PubSubBackend[Result]) ListenForNotifications(
 		defer close(replyChan)
 		defer cancel()
 
+		// sendFinalReply passes the last reply if the caller can still take it;
+		// a caller that stopped reading must not keep the listener alive.
+		sendFinalReply := func(reply Reply[Result]) {
+			select {
+			case replyChan <- reply:
+			default:
+			}
+		}
+		// sendReply reports false when listening ended before the caller took the reply.
+		sendReply := func(reply Reply[Result]) bool {
+			select {
+			case replyChan <- reply:
+				return true
+			case <-ctx.Done():
+				return false
+			}
+		}
+
 		for {
 			select {
 			case <-ctx.Done():
-				replyChan <- Reply[Result]{
+				sendFinalReply(Reply[Result]{
 					Error: ReplyTimeoutError{time.Since(start), ctx.Err()},
-				}
+				})
 				return
 			case notifyMsg, ok := <-notifyMsgs:
 				if !ok {
 					// subscriber is closed
-					replyChan <- Reply[Result]{
+					sendFinalReply(Reply[Result]{
 						Error: ReplyTimeoutError{time.Since(start), fmt.Errorf("subscriber closed")},
-					}
+					})
 					return
 				}
 
 				verifhook.At("requestreply.listen.notification", string(params.OperationID), notifyMsg.UUID)
 				resp, ok, unmarshalErr := p.handleNotifyMsg(notifyMsg, string(params.OperationID), p.marshaler)
+				delivered := true
 				if unmarshalErr != nil {
-					replyChan <- Reply[Result]{
+					delivered = sendReply(Reply[Result]{
 						Error: ReplyUnmarshalError{unmarshalErr},
-					}
+					})
 				} else if ok {
-					replyChan <- Reply[Result]{
+					delivered = sendReply(Reply[Result]{
 						HandlerResult:       resp.HandlerResult,
 						Error:               resp.Error,
 						NotificationMessage: notifyMsg,
-					}
+					})
+				}
+				if !delivered {
+					sendFinalReply(Reply[Result]{
+						Error: ReplyTimeoutError{time.Since(start), ctx.Err()},
+					})
+					return
 				}
 
 				// we assume that more messages may arrive (in case of fan-out commands handling) - we don't exit yet
